@@ -52,10 +52,19 @@ struct Emb {
     scale: i64,  // 2^(16-bits)
     jitter: i64, // 0, 1 or scale-1
     rocmod: i64,
+    roc_base: u32,  // model ROC r <-> real roc_base + r ("highroc": the top of the 32-bit space)
+    rtcp_base: u32, // model SRTCP index w <-> real rtcp_base + w ("rtcptop": the top of the 31-bit space)
 }
 impl Emb {
     fn idx(&self, i: i64) -> i64 {
-        self.scale * i + self.jitter
+        ((self.roc_base as i64) << 16) + self.scale * i + self.jitter
+    }
+    fn rtcp_tx(&self, w: i64) -> u32 {
+        self.rtcp_base.wrapping_add(w as u32)
+    }
+    /// receiver side: 0 = nothing seen yet
+    fn rtcp_rx(&self, r: i64) -> u32 {
+        if r == 0 { 0 } else { self.rtcp_base.wrapping_add(r as u32) }
     }
     fn seq(&self, i: i64) -> u16 {
         (self.idx(i) & 0xFFFF) as u16
@@ -65,7 +74,7 @@ impl Emb {
         ((self.scale * q + self.jitter) & 0xFFFF) as u16
     }
     fn model_roc(&self, r: i64) -> u32 {
-        if r == self.rocmod - 1 { u32::MAX } else { r as u32 }
+        if r == self.rocmod - 1 { self.roc_base.wrapping_sub(1) } else { self.roc_base.wrapping_add(r as u32) }
     }
 }
 
@@ -238,7 +247,11 @@ impl<'a> World<'a> {
         let bits = cfg["bits"].as_i64().unwrap();
         let scale = 1i64 << (16 - bits);
         let jitter = if scale == 1 { 0 } else { [0, 1, scale - 1][rng.below(3) as usize] };
-        let emb = Emb { scale, jitter, rocmod: cfg["rocmod"].as_i64().unwrap() };
+        let rocmod = cfg["rocmod"].as_i64().unwrap();
+        let embed = cfg["embed"].as_str().unwrap_or("low");
+        let roc_base = if embed == "highroc" { u32::MAX - (rocmod - 2) as u32 } else { 0 };
+        let rtcp_base = if embed == "rtcptop" { 0x7FFF_FFFF - cfg["rtcptop"].as_i64().unwrap() as u32 } else { 0 };
+        let emb = Emb { scale, jitter, rocmod, roc_base, rtcp_base };
         let key = rng.bytes(16);
         let salt = rng.bytes(if pname == "gcm" { 12 } else { 14 });
         let mut bad_key = rng.bytes(16);
@@ -360,7 +373,7 @@ impl<'a> World<'a> {
         }
         // the SRTCP index the sender used (internal: EXT)
         if let Some((_, _, ri)) = self.tx.verif_tx_state(ssrc) {
-            if ri as i64 != wire {
+            if ri != self.emb.rtcp_tx(wire) {
                 self.diverge("EXT", "RtcpSenderIndex", wher, "rr", "rtcp", "", json!({"model": wire, "observed": ri}));
             }
             // the same (key, SSRC, index) must never protect two packets (keystream / nonce reuse)
@@ -370,7 +383,7 @@ impl<'a> World<'a> {
             self.rtcp_wire.entry(k).or_default().push(ri);
         }
         let mut x3 = None;
-        if let Some(rtx) = self.rtx.as_mut() {
+        if let Some(rtx) = self.rtx.as_mut().filter(|_| self.emb.rtcp_base == 0) {
             match rtx.protect_rtcp(&plain) {
                 Ok(b) => {
                     self.evals += 1;
@@ -383,6 +396,37 @@ impl<'a> World<'a> {
             }
         }
         self.store.insert((true, k, i), Sent { plain_rtp: None, plain_bytes: plain, x1, x3, real_idx: i, shape_ok: true });
+    }
+
+    /// The model says the stream's SRTCP index space is used up: the sender must not produce a packet that cannot
+    /// be decoded. Judged by the statement itself: if protect_rtcp succeeds, a copy of the receiver must return the
+    /// original packet.
+    fn protect_rtcp_exhausted(&mut self, k: i64, i: i64, rng: &mut Rng, wher: &str) {
+        let ssrc = self.ssrc(k, rng);
+        let plain = gen_rtcp(rng, ssrc, self.small);
+        let mut x1 = plain.clone();
+        let before = self.tx.verif_tx_state(ssrc);
+        let r = catch(|| self.tx.protect_rtcp(&mut x1).map_err(|e| format!("{e}")));
+        self.evals += 1;
+        match r {
+            Err(p) => self.diverge("C04", "NoPanic", wher, "rr", "rtcp", "", json!({"ssrc": k, "ordinal": i, "error": p})),
+            Ok(Err(_)) => {
+                // refused, as intended; the refusal must not move the sender's index (EXT)
+                if self.tx.verif_tx_state(ssrc) != before {
+                    self.diverge("EXT", "SenderState", wher, "rr", "rtcp", "refused", json!({"ssrc": k, "before": before.map(|s| st_json(&s)), "after": self.tx.verif_tx_state(ssrc).map(|s| st_json(&s))}));
+                }
+            }
+            Ok(Ok(())) => {
+                let mut c = self.rx_a.verif_clone();
+                match unprotect_rtcp(&mut c, &x1) {
+                    Ok(v) if v == plain => {
+                        self.diverge("EXT", "RtcpExhaustion", wher, "rr", "rtcp", "", json!({"ssrc": k, "ordinal": i, "note": "protected beyond 2^31-1 and still decodable"}));
+                    }
+                    Ok(_) => self.diverge("C04", "RoundTrip", wher, "rr", "rtcp", "", json!({"field": "srtcp_index_exhausted", "ssrc": k, "ordinal": i, "tx_state": self.tx.verif_tx_state(ssrc).map(|s| st_json(&s))})),
+                    Err(e) => self.diverge("C04", "IndexAgreement", wher, "rr", "rtcp", "", json!({"field": "srtcp_index_exhausted", "ssrc": k, "ordinal": i, "error": e, "tx_state": self.tx.verif_tx_state(ssrc).map(|s| st_json(&s))})),
+                }
+            }
+        }
     }
 
     /// Deliver a genuine packet to the three receivers; `acc`/`must`/`replay` are the model's words.
@@ -432,7 +476,7 @@ impl<'a> World<'a> {
         // world r2ref: rustrtc -> reference
         if demand && self.rrx.is_some() && !self.wire_diverged {
             let rrx = self.rrx.as_mut().unwrap();
-            if rtcp || (shape_ok && rrx.in_domain(ssrc, real_idx)) {
+            if (rtcp && self.emb.rtcp_base == 0) || (!rtcp && shape_ok && rrx.in_domain(ssrc, real_idx)) {
                 self.ref_checked += 1;
                 self.evals += 1;
                 let r = if rtcp { rrx.unprotect_rtcp(&x1) } else { rrx.unprotect_rtp(&x1, ssrc, real_idx) };
@@ -774,6 +818,7 @@ fn step_of(v: &Value) -> Step {
 
 fn run_step(w: &mut World, s: &Step, rng: &mut Rng, wher: &str) {
     match s.op.as_str() {
+        "protect" if s.kind == "refused" => w.protect_rtcp_exhausted(s.k, s.idx, rng, wher),
         "protect" => {
             if s.rtcp { w.protect_rtcp(s.k, s.idx, if s.x >= 0 { s.x } else { s.idx }, rng, wher) } else { w.protect_rtp(s.k, s.idx, if s.x >= 0 { s.x } else { s.idx }, rng, wher) }
         }
@@ -816,6 +861,28 @@ fn preamble(w: &mut World, k: i64, start: i64, rng: &mut Rng) {
             w.store.remove(&key);
         }
     }
+}
+
+/// "highroc" embedding: sender and receivers are placed just below the stream's start index through the H4
+/// state-setting hook (2^48 packets cannot be sent), then the start packet itself is protected and delivered normally.
+fn start_forced(w: &mut World, k: i64, start: i64, rng: &mut Rng) {
+    let ssrc = w.ssrc(k, rng);
+    let base = w.emb.roc_base;
+    if start < 0 {
+        for sess in [&mut w.tx, &mut w.rx_a, &mut w.rx_c] {
+            sess.verif_force_rx_state(ssrc, base, None, 0).expect("force");
+            sess.verif_force_tx_state(ssrc, base, None, 0).expect("force");
+        }
+        // the receive-side contexts of tx and the transmit-side ones of the receivers are never used
+        return;
+    }
+    let prev = w.emb.idx(start) - 1;
+    let (roc, seq) = ((prev >> 16) as u32, (prev & 0xFFFF) as u16);
+    w.tx.verif_force_tx_state(ssrc, roc, Some(seq), 0).expect("force");
+    w.rx_a.verif_force_rx_state(ssrc, roc, Some(seq), 0).expect("force");
+    w.rx_c.verif_force_rx_state(ssrc, roc, Some(seq), 0).expect("force");
+    w.protect_rtp(k, start, start, rng, "preamble");
+    w.deliver(false, k, start, true, true, false, false, "preamble");
 }
 
 /// Authenticated filler streams so that `model contexts > wm` <=> `real contexts > 32`.
@@ -862,8 +929,16 @@ fn run_edge(edge: &Value, lineno: u64, pname: &str, use_ref: bool, few: bool, sm
     }
     for s in cfg["start"].as_array().unwrap() {
         let (k, st) = (s[0].as_i64().unwrap(), s[1].as_i64().unwrap());
-        if st >= 0 {
+        if w.emb.roc_base != 0 {
+            start_forced(&mut w, k, st, &mut rng);
+        } else if st >= 0 {
             preamble(&mut w, k, st, &mut rng);
+        }
+        if w.emb.rtcp_base != 0 {
+            // the stream has already sent rtcp_base SRTCP packets
+            let ssrc = w.ssrc(k, &mut rng);
+            let (roc, last, _) = w.tx.verif_tx_state(ssrc).unwrap_or(ABSENT);
+            w.tx.verif_force_tx_state(ssrc, roc, last, w.emb.rtcp_base).expect("force tx");
         }
     }
     let pre: Vec<Step> = edge["pre"].as_array().unwrap().iter().map(step_of).collect();
@@ -910,11 +985,11 @@ fn run_edge(edge: &Value, lineno: u64, pname: &str, use_ref: bool, few: bool, sm
         let on = row[1].as_i64().unwrap() == 1;
         let m: St = if on {
             let last = row[3].as_i64().unwrap();
-            (w.emb.model_roc(row[2].as_i64().unwrap()), if last < 0 { None } else { Some(w.emb.seq_only(last)) }, row[4].as_i64().unwrap() as u32)
+            (w.emb.model_roc(row[2].as_i64().unwrap()), if last < 0 { None } else { Some(w.emb.seq_only(last)) }, w.emb.rtcp_rx(row[4].as_i64().unwrap()))
         } else {
-            ABSENT
+            (w.emb.roc_base, None, 0)
         };
-        let o = w.rx_a.verif_rx_state(real).unwrap_or(ABSENT);
+        let o = w.rx_a.verif_rx_state(real).unwrap_or((w.emb.roc_base, None, 0));
         w.evals += 1;
         if o != m {
             let proto = if act.rtcp { "rtcp" } else { "rtp" };
@@ -929,11 +1004,11 @@ fn run_edge(edge: &Value, lineno: u64, pname: &str, use_ref: bool, few: bool, sm
             let Some(real) = w.ssrc_map.get(&k).copied() else { continue };
             let m: St = if row[1].as_i64() == Some(1) {
                 let last = row[3].as_i64().unwrap();
-                (w.emb.model_roc(row[2].as_i64().unwrap()), if last < 0 { None } else { Some(w.emb.seq_only(last)) }, row[4].as_i64().unwrap() as u32)
+                (w.emb.model_roc(row[2].as_i64().unwrap()), if last < 0 { None } else { Some(w.emb.seq_only(last)) }, w.emb.rtcp_tx(row[4].as_i64().unwrap()))
             } else {
-                ABSENT
+                (w.emb.roc_base, None, w.emb.rtcp_base)
             };
-            let o = w.tx.verif_tx_state(real).unwrap_or(ABSENT);
+            let o = w.tx.verif_tx_state(real).unwrap_or((w.emb.roc_base, None, w.emb.rtcp_base));
             w.evals += 1;
             if o != m {
                 w.diverge("EXT", "SenderState", "act", "rr", if act.rtcp { "rtcp" } else { "rtp" }, &act.kind,
